@@ -95,9 +95,9 @@ func (f *txFactory) Validate(string) bool { return true }
 type txHandler struct{ w *txWorld }
 
 func (h *txHandler) HandleMessageBatch(pb.MessageBatch) (uint64, uint64) { return 0, 0 }
-func (h *txHandler) HandleUnreachable(uint64, uint64)                     { h.w.unreach++ }
-func (h *txHandler) HandleSnapshotStatus(uint64, uint64, bool)            {}
-func (h *txHandler) HandleSnapshot(uint64, uint64, uint64)                {}
+func (h *txHandler) HandleUnreachable(uint64, uint64)                    { h.w.unreach++ }
+func (h *txHandler) HandleSnapshotStatus(uint64, uint64, bool)           {}
+func (h *txHandler) HandleSnapshot(uint64, uint64, uint64)               {}
 
 type txEvents struct{}
 
@@ -128,7 +128,9 @@ func txSetup(sc *txScenario, wp **txWorld) func(r *vsched.Run) {
 			panic(err)
 		}
 		nodes := registry.NewNodeRegistry(settings.Soft.StreamConnections, nil)
-		dir := func(shardID uint64, replicaID uint64) string { return fmt.Sprintf("/snapshot-%d-%d", shardID, replicaID) }
+		dir := func(shardID uint64, replicaID uint64) string {
+			return fmt.Sprintf("/snapshot-%d-%d", shardID, replicaID)
+		}
 		t, err := NewTransport(c, &txHandler{w: w}, env, nodes, dir, txEvents{}, fs)
 		if err != nil {
 			panic(err)
@@ -196,12 +198,24 @@ func (w *txWorld) judge(o *vsched.Outcome) (map[string]string, []string) {
 		finds["tx/error/"+txNum.ReplaceAllString(e, "N")] = "unexpected error: " + e
 	}
 	lost, dup := 0, 0
-	if o.Status == vsched.Completed {
+	dupOracle := os.Getenv("VERIF_TX_ORACLE") == "dup"
+	if dupOracle {
+		// C01 rests on the transport never duplicating a message (a forwarded
+		// proposal of a NoOP session would be applied twice)
+		for id, n := range w.delivered {
+			if n > 1 {
+				finds["tx/message-sent-twice"] = fmt.Sprintf("message %d was handed to the connection %d times", id, n)
+			}
+		}
+	}
+	if o.Status == vsched.Completed && !dupOracle {
 		for id := range w.strict {
 			if w.delivered[id] == 0 {
 				finds["tx/accepted-at-quiescence-never-sent"] = fmt.Sprintf("message %d was accepted by Send() while every connection worker was idle or gone and the connection healthy, and never reached the connection although nothing is left to run: messages to that host are black-holed", id)
 			}
 		}
+	}
+	if o.Status == vsched.Completed {
 		for id, ok := range w.accepted {
 			if ok && w.delivered[id] == 0 {
 				lost++
@@ -227,12 +241,14 @@ func txScenarios() []txScenario {
 	var out []txScenario
 	for _, h := range []string{
 		"s2 a C",
-		"s2 a I S2 a C",       // idle teardown, then traffic again
-		"s2 I s2 a S2 a C",    // send racing with the idle exit
+		"s2 a I S2 a C",    // idle teardown, then traffic again
+		"s2 I s2 a S2 a C", // send racing with the idle exit
 		"s2 s2 a I S2 a I S2 a C",
 		"s2 s3 a I S2 a S3 a C", // two targets
 		"s2 a I s2 s2 S2 a C",
 		"s2 C",
+		"s2 s2 s2 a C", // a burst drained in one pass: more than one batch (the size limit is scaled down)
+		"s2 a s2 s2 s2 s2 a C",
 	} {
 		out = append(out, txScenario{Name: h, Host: strings.Fields(h)})
 	}
